@@ -15,6 +15,8 @@ import (
 
 	"github.com/verily-src/fhirpath-go/fhirpath/system"
 	"github.com/verily-src/fhirpath-go/internal/fhir"
+	"google.golang.org/protobuf/proto"
+	"google.golang.org/protobuf/reflect/protoreflect"
 )
 
 type c14Case struct {
@@ -29,6 +31,11 @@ type c14Case struct {
 	// Lang: evaluated on a Patient whose Resource.language is this tag ("" = no input resource):
 	// string functions do not depend on anything but their operands, whatever locale the data declares
 	Lang string `json:"lang,omitempty"`
+	// Prev: the receiver element held this other text when the same program was evaluated on it a
+	// moment ago (the caller edits its element in place between two evaluations): the answer is
+	// about the characters the element holds now
+	Prev    string `json:"prev,omitempty"`
+	HasPrev bool   `json:"has_prev,omitempty"`
 }
 
 var c14Langs = []string{"en", "en-US", "tr", "tr-TR", "az", "az-Latn", "lt", "el", "de", "nl", "ja"}
@@ -105,9 +112,12 @@ func c14GenStr(s Src, lo, hi int) string {
 }
 
 func c14Gen(s Src) c14Case {
-	c := c14Case{S: c14GenStr(s, 0, 12), Recv: pickOne(s, []string{"lit", "lit", "var", "fhir.string", "fhir.code", "fhir.markdown", "fhir.uri"}), ArgsV: s.Prob(40)}
+	c := c14Case{S: c14GenStr(s, 0, 12), Recv: pickOne(s, []string{"lit", "lit", "var", "fhir.string", "fhir.code", "fhir.markdown", "fhir.uri", "fhir.id", "fhir.url", "fhir.canonical", "fhir.uuid", "fhir.oid"}), ArgsV: s.Prob(40)}
 	if s.Prob(30) {
 		c.Lang = pickOne(s, c14Langs)
+	}
+	if strings.HasPrefix(c.Recv, "fhir.") && s.Prob(35) {
+		c.HasPrev, c.Prev = true, c14GenStr(s, 0, 12)
 	}
 	c.Fn = pickOne(s, []string{"length", "substring1", "substring2", "substring2", "indexOf", "indexOf", "toChars", "startsWith", "endsWith", "contains", "replace", "upper", "lower", "law-chars", "law-split", "law-index", "law-contains"})
 	n := utf8.RuneCountInString(c.S)
@@ -202,7 +212,7 @@ func c14Source(c c14Case) (string, map[string]any, string) {
 	case "var":
 		vars["s"] = system.String(c.S)
 		recv = "%s"
-	case "fhir.string", "fhir.code", "fhir.markdown", "fhir.uri":
+	case "fhir.string", "fhir.code", "fhir.markdown", "fhir.uri", "fhir.id", "fhir.url", "fhir.canonical", "fhir.uuid", "fhir.oid":
 		vars["s"] = Val{K: c.Recv, S: c.S}.mustBuild()
 		recv = "%s"
 	}
@@ -256,6 +266,13 @@ func c14Source(c c14Case) (string, map[string]any, string) {
 
 func c14Run(ctx *Ctx, c c14Case) {
 	src, vars, _ := c14Source(c)
+	if el, ok := vars["s"].(proto.Message); ok && c.HasPrev {
+		// the same element object, first holding Prev, then S
+		fd := el.ProtoReflect().Descriptor().Fields().ByName("value")
+		el.ProtoReflect().Set(fd, protoreflect.ValueOfString(c.Prev))
+		evalWith(src, c14Input(c), vars)
+		el.ProtoReflect().Set(fd, protoreflect.ValueOfString(c.S))
+	}
 	out := evalWith(src, c14Input(c), vars)
 	rs, rt := []rune(c.S), []rune(c.T)
 	n := len(rs)
@@ -271,7 +288,7 @@ func c14Run(ctx *Ctx, c c14Case) {
 	default:
 		nontrivial = multibyte
 	}
-	ctx.Eval(src+"|"+c.S+"|"+c.T+"|"+c.R+"|"+c.Lang, nontrivial, "fn:"+c.Fn, "recv:"+c.Recv, "input-language:"+c.Lang)
+	ctx.Eval(src+"|"+c.S+"|"+c.T+"|"+c.R+"|"+c.Lang+"|"+c.Prev, nontrivial, "fn:"+c.Fn, "recv:"+c.Recv, "input-language:"+c.Lang, fmt.Sprintf("element-edited-in-place:%v", c.HasPrev && c.Prev != c.S))
 	fail := func(what, want string) {
 		ctx.Fail(fmt.Sprintf("strings %s: %s", strings.TrimRight(c.Fn, "12"), what), fmt.Sprintf("%s with s=%q t=%q r=%q start=%d len=%d: want %s, got %s", src, c.S, c.T, c.R, c.Start, c.Len, want, out))
 	}
@@ -536,7 +553,7 @@ func c14RunNest(ctx *Ctx, c c14NestCase) {
 
 func TestC14(t *testing.T) {
 	r := newRec("C14",
-		"cases are (function, receiver string, pattern/replacement, start, length, delivery): strings of 0..12 runes over {ASCII, space, é (2 bytes), € (3), 😀 (4), combining acute, ß, İ, quote, backslash, regexp metacharacters} and, for 22% of the characters, any graphic rune of Unicode drawn per UTF-8 shape (2 bytes, 3 bytes with lead byte E0, other 3 bytes, 4 bytes) or from the runes whose case mapping changes the encoded length, start ∈ [-2,len+2] ∪ boundary int32, length ∈ [-1,len+2] ∪ boundary int32, patterns = rune-aligned substrings, near misses, '' and random strings; receivers as literals, System variables and FHIR string/code/markdown/uri elements; an exhaustive stage enumerates every string of length ≤ 3 (quick) / ≤ 5 (thorough) over a 5-rune alphabet × all positions × all short substrings; non-trivial = bytes ≠ characters before the position/pattern, or the position is out of range, or (other functions) the receiver has a multi-byte rune; distinct = FNV-64 of (source, operands)",
+		"cases are (function, receiver string, pattern/replacement, start, length, delivery): strings of 0..12 runes over {ASCII, space, é (2 bytes), € (3), 😀 (4), combining acute, ß, İ, quote, backslash, regexp metacharacters} and, for 22% of the characters, any graphic rune of Unicode drawn per UTF-8 shape (2 bytes, 3 bytes with lead byte E0, other 3 bytes, 4 bytes) or from the runes whose case mapping changes the encoded length, start ∈ [-2,len+2] ∪ boundary int32, length ∈ [-1,len+2] ∪ boundary int32, patterns = rune-aligned substrings, near misses, '' and random strings; receivers as literals, System variables and FHIR string/code/markdown/uri/id/url/canonical/uuid/oid elements (a third of the element receivers held another text when the same program ran on the same element object a moment before); an exhaustive stage enumerates every string of length ≤ 3 (quick) / ≤ 5 (thorough) over a 5-rune alphabet × all positions × all short substrings; non-trivial = bytes ≠ characters before the position/pattern, or the position is out of range, or (other functions) the receiver has a multi-byte rune; distinct = FNV-64 of (source, operands)",
 		"reference model over []rune; upper/lower asserted only on runes without special casing; substring with a negative length is not asserted (statement silent)")
 	runProperty(t, r,
 		Stage[c14Case]{Name: "short-strings", Enum: c14Enum, Run: c14Run},
